@@ -4,29 +4,28 @@
 
    Model: Model/C04Expr.v (trees, tokens, the printer `print st e`, Python's grammar levels prec/req and the rule `ref_needs`
    derived from them), Model/C04Parse.v (Python's expression grammar as a parser over the tokens; validated against CPython on
-   every run), Gen/Priority.v (the parenthesisation rule `pony_needs` of pony/orm/asttranslation.py, regenerated from the source
-   on every run), Model/C04Known.v (the listed gaps), Model/C04FStr.v (f-string bodies, character level). *)
+   every run), Gen/Priority.v (the parenthesisation rule `pony_needs` and the f-string / index-tuple flags of
+   pony/orm/asttranslation.py, regenerated from the source on every run), Model/C04FStr.v (f-string bodies, character level). *)
 From Coq Require Import ZArith List Bool Arith.
 Import ListNotations.
-Require Import PonyV.Model.C04Expr PonyV.Model.C04Parse PonyV.Model.C04Known PonyV.Model.C04FStr PonyV.Gen.Priority
+Require Import PonyV.Model.C04Expr PonyV.Model.C04Parse PonyV.Model.C04FStr PonyV.Gen.Priority
                PonyV.Proofs.C04Table PonyV.Proofs.C04Parse PonyV.Proofs.C04Mono PonyV.Proofs.C04FStrProofs PonyV.Proofs.C04Pony.
 Open Scope nat_scope.
 
-(* (1) Finite table: wherever Python's grammar requires parentheses around a child (parent kind, position, child kind), the
-   rule coded in PythonTranslator produces them - on every triple outside the explicit list known_bad_list (139 triples). *)
-Theorem C04_table_except_known : forall p i c,
-  ref_needs p i c = true -> known_bad p i c = false -> pony_needs p i c = true.
-Proof. exact table_except_known. Qed.
-Print Assumptions C04_table_except_known.
+(* (1) Finite table, no exception: wherever Python's grammar requires parentheses around a child (parent kind, position class,
+   child kind), the rule coded in PythonTranslator (@priority decorators, `>=`, receiver_src) produces them. *)
+Theorem C04_table : forall p i c, ref_needs p i c = true -> pony_needs p i c = true.
+Proof. exact table_covers. Qed.
+Print Assumptions C04_table.
 
-(* the code never puts parentheses around an item (starred argument, keyword, slice, replacement field) *)
-Theorem C04_items_never_wrapped : forall p i c, expr_kindb c = false -> pony_needs p i c = false.
+(* the code never puts parentheses around an item (starred argument, keyword, slice, replacement field) where one may stand *)
+Theorem C04_items_never_wrapped : forall p i c, allowed p i c = true -> expr_kindb c = false -> pony_needs p i c = false.
 Proof. exact items_never_wrapped. Qed.
 Print Assumptions C04_items_never_wrapped.
 
 (* (2) Unbounded trees, any parenthesisation style: if the style parenthesises at least where `ref_needs` asks, never
-   parenthesises an item and drops no format spec that occurs (`good st e`), then Python's grammar (the model parser) reads
-   the printed tokens back as exactly the tree e, whatever its depth. *)
+   parenthesises an item, drops no format spec and no index-tuple comma that occurs (`good st e`), then Python's grammar (the model
+   parser) reads the printed tokens back as exactly the tree e, whatever its depth. *)
 Theorem C04_print_parse : forall st e,
   good st e = true -> expr_kindb (ekind e) = true ->
   exists n, forall f, n <= f -> parse_top f (print st e) = Some e.
@@ -59,39 +58,56 @@ Theorem C04_redundant_parentheses_harmless : forall e, wf e = true -> expr_kindb
 Proof. exact full_roundtrip. Qed.
 Print Assumptions C04_redundant_parentheses_harmless.
 
-(* (3) The code's own style (regenerated from the source): every well-formed tree of any depth that contains none of the
-   known triples, no format spec (the code drops them) and no kind the code cannot print is read back as itself. *)
-Theorem C04_ast2src_except_known : forall e,
-  wf e = true -> avoids_known e = true -> (pony_keep_spec || spec_free e) = true -> kinds_ok pony_kind_ok e = true ->
-  expr_kindb (ekind e) = true ->
+(* (3) THE CODE'S OWN STYLE (regenerated from the source on every run): every well-formed expression tree, of any depth, is read
+   back as itself from the tokens ast2src prints - no list of exceptions.  (wf: the arities and positions of Python's abstract
+   grammar for the 36 modelled node kinds; it excludes only negative number constants, whose reparse is a UnaryOp node.) *)
+Theorem C04_ast2src : forall e, wf e = true -> expr_kindb (ekind e) = true ->
   exists n, forall f, n <= f -> parse_top f (print pony_style e) = Some e.
 Proof. exact pony_roundtrip. Qed.
-Print Assumptions C04_ast2src_except_known.
+Print Assumptions C04_ast2src.
 
-(* (4) f-string bodies, character level: literal braces, conversions and format specs survive print + read *)
+Theorem C04_ast2src_unique : forall e, wf e = true -> expr_kindb (ekind e) = true ->
+  forall f e', parse_top f (print pony_style e) = Some e' -> e' = e.
+Proof. exact pony_unique. Qed.
+Print Assumptions C04_ast2src_unique.
+
+(* the same without relying on the current value of the f-string / index-tuple flags (what would remain if they regressed) *)
+Theorem C04_ast2src_flags : forall e,
+  wf e = true -> (pony_keep_spec || spec_free e) = true -> (pony_short_idx || long_idx e) = true ->
+  expr_kindb (ekind e) = true ->
+  exists n, forall f, n <= f -> parse_top f (print pony_style e) = Some e.
+Proof. exact pony_roundtrip_flags. Qed.
+Print Assumptions C04_ast2src_flags.
+
+(* every node kind of the model can be printed (no method reads a field the node does not have) *)
+Theorem C04_every_kind_printable : forall k, pony_kind_ok k = true.
+Proof. exact pony_kinds_all. Qed.
+Print Assumptions C04_every_kind_printable.
+
+(* (4) f-string bodies, character level: literal braces, conversions and format specs survive print + read;
+   first for the faithful printer, then for the flags the code has *)
 Theorem C04_fstring : forall v, normal_f false v = true -> parse_f (print_f true true v) = Some v.
 Proof. exact fstring_roundtrip. Qed.
 Print Assumptions C04_fstring.
 
-(* the code's flags (no doubling of braces, no spec): faithful on brace-free, spec-free values *)
-Theorem C04_fstring_except_known : forall v, normal_f false v = true ->
-  (pony_escape_braces = true \/ brace_free v = true) -> (pony_keep_spec = true \/ no_spec v = true) ->
-  parse_f (print_f pony_escape_braces pony_keep_spec v) = Some v.
+Theorem C04_fstring_ast2src : forall v, normal_f false v = true -> parse_f (print_f pony_escape_braces pony_keep_spec v) = Some v.
 Proof. exact pony_fstring. Qed.
-Print Assumptions C04_fstring_except_known.
+Print Assumptions C04_fstring_ast2src.
 
-(* non-vacuity: a deep tree with eleven operator levels, a slice, a starred argument and a keyword satisfies every hypothesis
-   of C04_ast2src_except_known and is read back; the table has triples that need parentheses and get them *)
-Example C04_nonvacuous :
-  wf sample = true /\ avoids_known sample = true /\ spec_free sample = true /\ kinds_ok pony_kind_ok sample = true /\
-  parse_auto (print pony_style sample) = Some sample.
+(* non-vacuity: a deep tree with eleven operator levels, receivers / conditional / lambda that need parentheses, a slice, a
+   one-element index tuple, a starred argument, a keyword and an f-string with braces, conversion and spec is well-formed and read back *)
+Example C04_nonvacuous : wf sample = true /\ parse_auto (print pony_style sample) = Some sample.
 Proof. exact sample_ok. Qed.
 Print Assumptions C04_nonvacuous.
 
 Example C04_table_nonvacuous :
-  ref_needs KSub 1 KAdd = true /\ pony_needs KSub 1 KAdd = true /\ known_bad KSub 1 KAdd = false /\
-  ref_needs KPow 0 KUSub = true /\ pony_needs KPow 0 KUSub = true /\
-  ref_needs KAttribute 0 KAdd = true /\ pony_needs KAttribute 0 KAdd = false /\ known_bad KAttribute 0 KAdd = true /\
-  length known_bad_list = 139.
+  ref_needs KSub 1 KAdd = true /\ pony_needs KSub 1 KAdd = true /\
+  ref_needs KPow 0 KPow = true /\ pony_needs KPow 0 KPow = true /\
+  ref_needs KPow 0 KUSub = true /\ ref_needs KPow 0 KNegConst = true /\
+  ref_needs KAttribute 0 KAdd = true /\ pony_needs KAttribute 0 KAdd = true /\
+  ref_needs KAdd 1 KIfExp = true /\ ref_needs KCall 0 KLambda = true /\ ref_needs KStarElt 0 KOr = true /\
+  ref_needs KAdd 0 KMult = false /\ ref_needs KCall 1 KLambda = false /\
+  length (filter (fun t => let '(p, i, c) := t in ref_needs p i c)
+            (flat_map (fun p => flat_map (fun i => map (fun c => (p, i, c)) all_kinds) all_pos) all_kinds)) = 436.
 Proof. exact table_nonvacuous. Qed.
 Print Assumptions C04_table_nonvacuous.
